@@ -152,7 +152,7 @@ var properties = map[string]Prop{
 		Parts:       []Part{{Harness: "c18"}},
 		Level:       "model_checking",
 		QuickBudget: 250, ThoroughBudget: 2400,
-		Rule:        "n = 2-3 (4 thorough) real Systems with clustering enabled over the in-memory network on virtual time, real gossip / join / failure-detection code and wire codec: seed layouts {one seed, two seeds}, start offsets {0, 0.3 s, 0.7 s} in several orders, FailureDetectionTimeout {4 s, default 40 s, off}, SuspectConfirmDuration {0, 2 s}; a late self-seeded island; fault phase: crash (isolation) of a non-seed node, restart with the same NodeID on the same / on a new address, restart with a fresh NodeID, partition and heal of a pair, each at three instants; healing phase of max(20 gossip rounds, 5 x timeout) of virtual time; oracle at the horizon: no view lists a node that is not running (dead-member-removed), and among the running nodes: equal member sets and incarnations, same computed leader, exactly one self-declared leader, every running node listed, no membership/leader event in the last third of the healing phase; executions are deterministic runs of the whole protocol stack (default fair schedule per scenario; deviations in thorough); distinct_nontrivial = distinct final view vectors; added: graceful Leave of a seed / non-seed / still-joining node whose system keeps running (Leave must return), seeds that come up late, views sampled every 250 ms after a death (a dropped dead member must not be listed again)",
+		Rule:        "n = 2-3 (4 thorough) real Systems with clustering enabled over the in-memory network on virtual time, real gossip / join / failure-detection code and wire codec: seed layouts {one seed, two seeds}, start offsets {0, 0.3 s, 0.7 s} in several orders, FailureDetectionTimeout {4 s, default 40 s, off}, SuspectConfirmDuration {0, 2 s}; a late self-seeded island; fault phase: crash (isolation) of a non-seed node, restart with the same NodeID on the same / on a new address, restart with a fresh NodeID, partition and heal of a pair, each at three instants; healing phase of max(20 gossip rounds, 5 x timeout) of virtual time; oracle at the horizon: no view lists a node that is not running (dead-member-removed), and among the running nodes: equal member sets and incarnations, same computed leader, exactly one self-declared leader, every running node listed, no membership/leader event in the last third of the healing phase; executions are deterministic runs of the whole protocol stack (default fair schedule per scenario; deviations in thorough); distinct_nontrivial = distinct final view vectors; added: graceful Leave of a seed / non-seed / still-joining node whose system keeps running (Leave must return), seeds that come up late, views sampled every 250 ms after a death (a dropped dead member must not be listed again in the last third of the healing phase)",
 		Assumptions: append([]string{"reconnect limit 1 with 100-200 ms back-off (instead of 10 attempts up to 10 s) so that Tell to a dead node does not stall the cluster actor for minutes of virtual time", "cluster sizes 5-7 and message loss inside a TCP stream are not covered", coarseAssumption}, schedAssumptions...),
 	},
 	"C05": {
